@@ -56,7 +56,21 @@ func (r *rng) coeffShape(n int) *big.Int {
 	if n < 1 {
 		n = 1
 	}
-	switch r.intn(14) {
+	switch r.intn(16) {
+	case 14, 15: // around the machine-word boundaries 2^63, 2^64, 2^127, 2^128 (fast-path limits)
+		b := new(big.Int).Lsh(big.NewInt(1), uint([]int{63, 64, 64, 127, 128}[r.intn(5)]))
+		b.Add(b, big.NewInt(int64(r.rangeI(-2, 2))))
+		if r.coin(50) { // pad or trim to about n digits keeping the boundary in the leading digits
+			return b
+		}
+		l := len(b.String())
+		if n > l {
+			b.Mul(b, pow10(n-l))
+			if r.coin(50) {
+				b.Add(b, new(big.Int).Sub(pow10(n-l), big.NewInt(1)))
+			}
+		}
+		return b
 	case 0: // power of ten
 		return pow10(n - 1)
 	case 1: // all nines
@@ -208,6 +222,10 @@ func (r *rng) genFinite(c *apd.Context) *apd.Decimal {
 	}
 	if r.coin(1) {
 		nd = r.rangeI(39, 80) // beyond the 128-bit tables
+	}
+	if r.coin(6) {
+		// discard a number of digits at the 64-bit / 128-bit word boundaries (10^19 < 2^64 < 10^20, 10^38 < 2^128 < 10^39)
+		nd = p + []int{17, 18, 19, 19, 20, 21, 37, 38, 39, 40}[r.intn(10)]
 	}
 	coeff := r.coeffShape(nd)
 	if r.coin(6) {
